@@ -327,6 +327,11 @@ def finish(ctx, lean_info):
         "leanchecker": lean_info.get("leanchecker"),
     }
     coverage.update(ctx.notes)
+    try:
+        import anchors
+        coverage["source_anchors"] = anchors.report(ctx.pid)
+    except Exception as error:  # noqa  (the cross-reference is informational; never fail a check on it)
+        coverage["source_anchors"] = {"error": repr(error)}
     code = 0
     lines = []
     for sig, info in sorted(ctx.known_hit.items()):
